@@ -10,8 +10,8 @@
 package main
 
 import (
-	stdecdsa "crypto/ecdsa"
 	"bytes"
+	stdecdsa "crypto/ecdsa"
 	"crypto/elliptic"
 	"crypto/sha512"
 	"encoding/hex"
@@ -37,7 +37,7 @@ type Case struct {
 	Signature  string `json:"signature"`
 	Blind      string `json:"blind"`
 	ClientKey  string `json:"client_key"`
-	PreVerify  bool   `json:"client_already_registered"` // an honest request of the same client was verified before
+	PreVerify  bool   `json:"client_already_registered"`                        // an honest request of the same client was verified before
 	Cached     bool   `json:"request_object_marshalled_before_fields_were_set"` // the request object was decoded from the honest bytes and Marshal() was called on it before the fields of this case were stored into it
 	HonestReq  string `json:"honest_request_hex,omitempty"`
 	HonestBl   string `json:"honest_blind,omitempty"`
@@ -120,19 +120,41 @@ func dumpCache(c *px.MemCache) string {
 func run(c Case) (string, *mc.Viol) {
 	cache := px.NewMemCache()
 	att := type3.NewRateLimitedAttester(cache)
+	blindArg, ckArg := unhex(c.Blind), unhex(c.ClientKey)
+	var inPlace *type3.RateLimitedTokenRequest
 	if c.PreVerify {
 		hr := new(type3.RateLimitedTokenRequest)
 		if !hr.Unmarshal(unhex(c.HonestReq)) {
 			return "harness", nil
 		}
-		if err := att.VerifyRequest(*hr, unhex(c.HonestBl), unhex(c.ClientKey), make([]byte, 32)); err != nil {
+		hbl, hck := unhex(c.HonestBl), unhex(c.ClientKey)
+		if err := att.VerifyRequest(*hr, hbl, hck, make([]byte, 32)); err != nil {
 			// the client key itself may be the mutated argument; then there is nothing registered, fine
 			_ = err
 		}
+		// the attester's caller keeps ONE request object and ONE blind / key buffer: the next request
+		// (this case) is written over the accepted one in place
+		put := func(dst *[]byte, src []byte) {
+			if len(*dst) == len(src) {
+				copy(*dst, src)
+			} else {
+				*dst = src
+			}
+		}
+		put(&hr.RequestKey, unhex(c.RequestKey))
+		put(&hr.NameKeyID, unhex(c.NameKeyID))
+		put(&hr.EncryptedTokenRequest, unhex(c.Encrypted))
+		put(&hr.Signature, unhex(c.Signature))
+		put(&hbl, unhex(c.Blind))
+		put(&hck, unhex(c.ClientKey))
+		inPlace, blindArg, ckArg = hr, hbl, hck
 	}
 	before := dumpCache(cache)
 	puts := cache.Puts
 	req := type3.RateLimitedTokenRequest{RequestKey: unhex(c.RequestKey), NameKeyID: unhex(c.NameKeyID), EncryptedTokenRequest: unhex(c.Encrypted), Signature: unhex(c.Signature)}
+	if inPlace != nil {
+		req = *inPlace
+	}
 	if c.Cached {
 		// the attester's caller decoded the honest request, looked at its encoding (which the
 		// object caches) and then holds an object whose fields are those of this case
@@ -145,7 +167,7 @@ func run(c Case) (string, *mc.Viol) {
 		req = o
 	}
 	var err error
-	if p := mc.Catch(func() { err = att.VerifyRequest(req, unhex(c.Blind), unhex(c.ClientKey), make([]byte, 32)) }); p != "" {
+	if p := mc.Catch(func() { err = att.VerifyRequest(req, blindArg, ckArg, make([]byte, 32)) }); p != "" {
 		if len(req.EncryptedTokenRequest) > 65535 && cache.Puts == puts && dumpCache(cache) == before {
 			// a request that has no wire encoding can only be built in the attester's own process; the
 			// statement is about requests, i.e. what a peer can send: not accepting it is what counts
@@ -366,6 +388,28 @@ func main() {
 			c = mk(o, tag+"other-request-with-own-blind-and-key")
 			c.Blind, c.ClientKey = hex.EncodeToString(h.blind), hex.EncodeToString(h.clientKey)
 			add(c)
+		}
+		// fields of another length than the wire format gives them (the request is handed over as a
+		// struct): whatever is carried is what the signature must cover
+		for _, d := range []struct {
+			name string
+			f    func(c *Case)
+		}{
+			{"name-key-id-extended-by-1", func(c *Case) { c.NameKeyID += "00" }},
+			{"name-key-id-extended-by-32", func(c *Case) { c.NameKeyID += hex.EncodeToString(mc.Fill(seedv, "c06-nkid-ext", 32)) }},
+			{"name-key-id-31-bytes", func(c *Case) { c.NameKeyID = c.NameKeyID[:62] }},
+			{"name-key-id-empty", func(c *Case) { c.NameKeyID = "" }},
+			{"request-key-extended-by-1", func(c *Case) { c.RequestKey += "00" }},
+			{"request-key-48-bytes", func(c *Case) { c.RequestKey = c.RequestKey[:96] }},
+			{"signature-extended-by-1", func(c *Case) { c.Signature += "00" }},
+		} {
+			c := mk(h, tag+"field-length:"+d.name)
+			d.f(&c)
+			add(c)
+			c2 := c
+			c2.Class += ":registered"
+			c2.PreVerify, c2.HonestReq, c2.HonestBl = true, hex.EncodeToString(h.reqBytes), hex.EncodeToString(h.blind)
+			add(c2)
 		}
 		// ciphertext at the limit of its 16-bit length prefix: 65535 bytes signed by the request key is
 		// authentic; 65536 bytes cannot be encoded, so no signature over "the request's exact contents"
